@@ -45,6 +45,17 @@ theorem sane_spec (rtol : α) (comps : List (Comp α)) (init x : List α) :
         (∀ i (hi : i < x.length) (b : α), ub[i]? = some (some b) → x[i] ≤ b * (1 + rtol)) :=
   resultIsSane_eq_ok_true_iff rtol comps init x
 
+/-- **defect witness (NaN).**  `sane_spec` speaks about numbers; on float arrays the real `_result_is_sane` accepts NaN entries, because
+    `nan < 0` and `nan > bound` are both False: water / H⁺ / OH⁻ with the result `[1/2, nan, nan]` — and even `[nan, nan, nan]` — is "sane".
+    So `sane ⇒ every concentration ≥ 0` holds only for results without NaN (`resultIsSaneNan_map_some` : on those the NaN-aware model is the
+    plain one); the solver-run oracle rejects non-finite results independently. -/
+theorem sane_accepts_nan_defect_witness :
+    resultIsSaneNan (α := ℚ) saneRtolDefault [[(1, 2), (8, 1)], [(0, 1), (1, 1)], [(0, -1), (1, 1), (8, 1)]] [1, 1 / 2, 0]
+      [some (1 / 2), none, none] = .ok true ∧
+    resultIsSaneNan (α := ℚ) saneRtolDefault [[(1, 2), (8, 1)], [(0, 1), (1, 1)], [(0, -1), (1, 1), (8, 1)]] [1, 1 / 2, 0]
+      [none, none, none] = .ok true := by
+  constructor <;> decide +kernel
+
 /-- **upper_bound_valid.** The bound of `upper_conc_bounds` is a genuine bound: with non-negative composition coefficients
     (charge excluded) and strictly positive ones for substance `i`, no non-negative state `y` that carries the same
     element totals as `init` has more of substance `i` than `ub i`. -/
@@ -303,15 +314,6 @@ theorem scalar_root_is_equilibrium_and_unique (stoich : List Int) (c0 : List α)
   · exact absurd (residual_strictly_decreasing_on_bracket stoich c0 lo up K h hne hpos r2 r1 0 0 hlo2 hlt hup1 h2 h1) (lt_irrefl 0)
   · exact heq
   · exact absurd (residual_strictly_decreasing_on_bracket stoich c0 lo up K h hne hpos r1 r2 0 0 hlo1 hgt hup2 h1 h2) (lt_irrefl 0)
-
-/-- **residual with an activity product** (`equilibrium_residual(..., activity_product=γ)`): the residual is `K − Q(c)·γ(c)` at
-    `c = c0 + ν·rc`; it vanishes exactly when the activity-corrected quotient equals `K`. -/
-theorem residual_with_activity_zero_iff (act : List α → Except Err α) (rc : α) (c0 : List α) (stoich : List Int) (K v : α)
-    (h : equilibriumResidualWith act rc c0 stoich K = .ok v) :
-    ∃ g, act (extentState c0 stoich rc) = .ok g ∧ v = K - quotient (extentState c0 stoich rc) stoich * g ∧
-      (v = 0 ↔ quotient (extentState c0 stoich rc) stoich * g = K) := by
-  obtain ⟨_, g, hg, hv⟩ := equilibriumResidualWith_ok act rc c0 stoich K v h
-  exact ⟨g, hg, hv, by rw [hv, sub_eq_zero]; exact eq_comm⟩
 
 /-- **residual of several reactions** (2-d `stoich`: species × reactions, one reaction coordinate each): entry `r` of
     `equilibrium_residual(rc, c0, stoich, K)` is `K_r − ∏ᵢ cᵢ^stoich[i][r]` at `c = c0 + stoich·rc`; the vector vanishes exactly when
